@@ -408,6 +408,13 @@ pub fn run(tier: Tier) -> i32 {
     for fam in ["list", "dict", "grid", "exotic"] {
         run.require(run.counter(&format!("machine:{fam}")) > 40, &format!("machine {fam} too small"));
     }
+    // borrowed pointers across read-only calls; returned strings are fresh allocations
+    run.stats.evals += 1;
+    match guarded(|| unsafe { crate::model::capi::borrow_sweep() }) {
+        Ok(Ok(n)) => run.stats.count_n("borrow-sweep-calls", n),
+        Ok(Err(e)) => run.stats.fail("borrowed-pointer-or-string-protocol", json!({"borrow_sweep": true}), e),
+        Err(p) => run.stats.fail("borrowed-pointer-or-string-protocol:panic", json!({"borrow_sweep": true}), p),
+    }
     // every string argument of every function, not UTF-8 (state independent)
     run.stats.evals += 1;
     match guarded(|| unsafe { crate::model::capi::bad_string_sweep() }) {
@@ -450,6 +457,13 @@ pub fn replay(case: &J) -> Verdict {
             }
         }
         return Err(("replay-machine-unknown".into(), name.to_string()));
+    }
+    if case["borrow_sweep"] == true {
+        return match guarded(|| unsafe { crate::model::capi::borrow_sweep() }) {
+            Ok(Ok(_)) => Ok(()),
+            Ok(Err(e)) => Err(("borrowed-pointer-or-string-protocol".into(), e)),
+            Err(p) => Err(("borrowed-pointer-or-string-protocol:panic".into(), p)),
+        };
     }
     if case["bad_string_sweep"] == true {
         return match guarded(|| unsafe { crate::model::capi::bad_string_sweep() }) {
